@@ -6,7 +6,9 @@ import (
 	"bytes"
 	"fmt"
 	"math/big"
+	"runtime"
 	"testing"
+	"time"
 
 	"github.com/gcash/bchd/bchec"
 	"github.com/gcash/bchutil"
@@ -90,6 +92,31 @@ func evalC06RT(c c06RT, o *Obs) error {
 	}
 	if !bytes.Equal(pad32(d.PrivKey.D), c.Scalar) || d.CompressPubKey != c.Compress {
 		return fmt.Errorf("DecodeWIF(%q) = key %x compress %v, want %x %v", s, pad32(d.PrivKey.D), d.CompressPubKey, []byte(c.Scalar), c.Compress)
+	}
+	{
+		// the key inside is a complete key from the start (its public point is there before anybody asks the wrapper for it)
+		px, py := pubPoint(c.Scalar)
+		if pk := d.PrivKey.PubKey(); pk == nil || pk.X == nil || pk.Y == nil || pk.X.Cmp(px) != 0 || pk.Y.Cmp(py) != 0 {
+			return fmt.Errorf("DecodeWIF(%q): the decoded private key's public point is not that of the scalar (before SerializePubKey was ever called)", s)
+		}
+		if c.Scalar[30]%16 == 3 {
+			// ... and it outlives the wrapper: a caller that keeps only the key still has it after a collection
+			keyOnly := func() *bchec.PrivateKey {
+				w2, err := bchutil.DecodeWIF(s)
+				if err != nil {
+					return nil
+				}
+				return w2.PrivKey
+			}()
+			for i := 0; i < 2; i++ {
+				runtime.GC()
+				time.Sleep(time.Millisecond)
+			}
+			if keyOnly == nil || !bytes.Equal(pad32(keyOnly.D), c.Scalar) {
+				return fmt.Errorf("DecodeWIF(%q): the private key kept by the caller changed after the WIF wrapper was collected", s)
+			}
+			o.Class("C06:rt-key-outlives-wrapper")
+		}
 	}
 	for _, n2 := range nets {
 		if w.IsForNet(n2.Params) != d.IsForNet(n2.Params) {
